@@ -93,8 +93,12 @@ impl ReplicationFetcher {
         for (addr, record_type) in incoming_keys {
             let key = addr.to_record_key();
 
-            // Skip if locally stored or already pending fetch
-            if locally_stored_keys.contains_key(&key)
+            // Skip if locally stored with the same record type, or already pending fetch.
+            // A held key advertised with a different record type (i.e. different content
+            // of a Register or Transaction) still needs to be fetched.
+            if locally_stored_keys
+                .get(&key)
+                .is_some_and(|(_addr, local_type)| local_type == &record_type)
                 || self
                     .to_be_fetched
                     .contains_key(&(key.clone(), record_type.clone(), holder))
